@@ -1,2 +1,199 @@
-From V Require Import Registry.
-Example C05_placeholder : True. Proof. exact I. Qed.
+(* C05 — the registry of live streams (media/global.go): one live stream per path, and it is the
+   most recently registered one; replace / unregister / close / idle-close keep the registry
+   consistent; counts and listings match the live set; two racing registrations leave exactly one
+   live stream.  Statements only; proofs are in Proofs/RegistryProofs.v.
+
+   [grun rfixed] is the implementation model (registry map with delete/store, close removes the
+   stream from the map), [srun] / [sstep] / [sp_resolve] the specification (per key the most
+   recently registered stream, answers filtered by liveness), [hist_wf] = only live streams are
+   registered, [sexec sinit ops] the specification state after the history [ops]. *)
+From Coq Require Import ZArith List Bool.
+From V Require Import Bytes StrGo Registry RegistryProofs.
+Import ListNotations.
+Open Scope Z_scope.
+
+(* 1. for every well-formed history (any length, any paths and spellings) the implementation
+   model's answers to Get / Count / List / Idle are exactly the specification's *)
+Theorem C05_impl_refines_spec : forall ops,
+  hist_wf sinit ops = true -> snd (grun rfixed rinit ops) = srun sinit ops.
+Proof. exact impl_refines_spec. Qed.
+Print Assumptions C05_impl_refines_spec.
+
+(* 2. the oracle that the check applies to the real implementation accepts the model *)
+Theorem C05_model_passes : forall ops,
+  hist_wf sinit ops = true -> ok_hist_C05 ops (snd (grun rfixed rinit ops)) = true.
+Proof. exact model_passes. Qed.
+Print Assumptions C05_model_passes.
+
+(* 3a. whatever a lookup returns is an existing live stream whose path is the key … *)
+Theorem C05_lookup_only_live : forall ops k i,
+  let sp := sexec sinit ops in
+  sp_resolve sp k = Some i ->
+  (i < length (sp_streams sp))%nat /\ st_live (sp_get sp i) = true /\ st_path (sp_get sp i) = k.
+Proof. exact lookup_only_live. Qed.
+Print Assumptions C05_lookup_only_live.
+
+(* … in particular the answer of Get for any spelling is live and has the canonical path *)
+Theorem C05_get_only_live : forall ops p i,
+  let sp := sexec sinit ops in
+  snd (sstep sp (GGet p)) = RGet (Some i) ->
+  (i < length (sp_streams sp))%nat /\ st_live (sp_get sp i) = true /\
+  st_path (sp_get sp i) = canonical_path p.
+Proof. exact get_only_live. Qed.
+Print Assumptions C05_get_only_live.
+
+(* 3b. right after a (well-formed) registration of stream i its path resolves to i *)
+Theorem C05_lookup_is_latest_registered : forall sp i,
+  (i < length (sp_streams sp))%nat -> st_live (sp_get sp i) = true ->
+  sp_resolve (fst (sstep sp (GRegist i))) (st_path (sp_get sp i)) = Some i.
+Proof. exact regist_then_resolves. Qed.
+Print Assumptions C05_lookup_is_latest_registered.
+
+(* registering over another live stream j retires j: closed at once if it has no consumers, else
+   left live for its consumers with the retire task pending; no key resolves to j afterwards *)
+Theorem C05_regist_retires_old : forall ops i j,
+  let sp := sexec sinit ops in
+  let sp' := fst (sstep sp (GRegist i)) in
+  (i < length (sp_streams sp))%nat -> st_live (sp_get sp i) = true ->
+  sp_resolve sp (st_path (sp_get sp i)) = Some j -> j <> i ->
+  (if consumers (sp_get sp j) <=? 0 then st_live (sp_get sp' j) = false
+   else st_live (sp_get sp' j) = true /\ st_retire (sp_get sp' j) = true /\
+        st_rtp (sp_get sp' j) = st_rtp (sp_get sp j) /\ st_flv (sp_get sp' j) = st_flv (sp_get sp j)) /\
+  (forall k, sp_resolve sp' k <> Some j).
+Proof. exact regist_retires_old. Qed.
+Print Assumptions C05_regist_retires_old.
+
+(* closing / unregistering stream j removes exactly the resolutions to j … *)
+Theorem C05_close_effect : forall sp j k,
+  sp_resolve (fst (sstep sp (GClose j))) k =
+  match sp_resolve sp k with Some i => if Nat.eqb i j then None else Some i | None => None end.
+Proof. exact close_effect. Qed.
+Print Assumptions C05_close_effect.
+
+Theorem C05_unregist_effect : forall sp j k,
+  sp_resolve (fst (sstep sp (GUnregist j))) k =
+  match sp_resolve sp k with Some i => if Nat.eqb i j then None else Some i | None => None end.
+Proof. exact unregist_effect. Qed.
+Print Assumptions C05_unregist_effect.
+
+(* … so unregistering (or closing) a retired stream — one that is not what its path resolves
+   to — changes no resolution: its successor stays *)
+Theorem C05_unregist_retired_keeps_successor : forall ops j,
+  let sp := sexec sinit ops in
+  sp_resolve sp (st_path (sp_get sp j)) <> Some j ->
+  forall k, sp_resolve (fst (sstep sp (GUnregist j))) k = sp_resolve sp k /\
+            sp_resolve (fst (sstep sp (GClose j))) k = sp_resolve sp k.
+Proof. exact unregist_retired_keeps_successor. Qed.
+Print Assumptions C05_unregist_retired_keeps_successor.
+
+(* a closed or unregistered stream is never returned by any later lookup, whatever happens next *)
+Theorem C05_closed_never_returned : forall ops1 j ops2 k,
+  (j < length (sp_streams (sexec sinit ops1)))%nat ->
+  sp_resolve (sexec sinit (ops1 ++ GClose j :: ops2)) k <> Some j /\
+  sp_resolve (sexec sinit (ops1 ++ GUnregist j :: ops2)) k <> Some j.
+Proof. exact closed_never_returned. Qed.
+Print Assumptions C05_closed_never_returned.
+
+(* 3c. the idle task closes a live stream only if it has no RTP and no FLV consumer and no recent
+   HLS access (r = "HLS accessed within the period"); it answers true exactly then; it touches no
+   other stream *)
+Theorem C05_idle_only_when_unused : forall ops i r,
+  let sp := sexec sinit ops in
+  let s := sp_get sp i in
+  let sp' := fst (sstep sp (GIdle i r)) in
+  (st_live s = true -> st_live (sp_get sp' i) = false ->
+     st_rtp s = 0 /\ st_flv s = 0 /\ (r = false \/ st_hls s = false)) /\
+  (snd (sstep sp (GIdle i r)) = RIdle true <->
+     st_live s = true /\ st_rtp s = 0 /\ st_flv s = 0 /\ (r = false \/ st_hls s = false)) /\
+  (snd (sstep sp (GIdle i r)) = RIdle true -> st_live (sp_get sp' i) = false) /\
+  (forall j, j <> i -> sp_get sp' j = sp_get sp j).
+Proof. exact idle_only_when_unused. Qed.
+Print Assumptions C05_idle_only_when_unused.
+
+(* 3d. the reported stream count is the number of keys that resolve to a live stream, the consumer
+   count the sum of those streams' consumers, the listing the sorted resolving keys *)
+Theorem C05_count_matches_live_set : forall ops,
+  let sp := sexec sinit ops in
+  let keys := map fst (sp_last sp) in
+  snd (sstep sp GCount) =
+    RCount (Z.of_nat (length (filter (resolves sp) keys)))
+           (fold_left (fun a k => a + consumers_at sp k) keys 0) /\
+  snd (sstep sp GList) = RList (sort_paths (filter (resolves sp) keys)) /\
+  NoDup keys.
+Proof. exact count_matches_live_set. Qed.
+Print Assumptions C05_count_matches_live_set.
+
+(* 4. the code before the repairs violates the specification (D5, D7) *)
+Theorem C05_closed_stream_returned_refuted :
+  exists ops,
+    hist_wf sinit ops = true /\
+    snd (grun roriginal rinit ops) = [RUnit; RUnit; RUnit; RGet (Some 0%nat)] /\
+    st_live (sget (fst (grun roriginal rinit ops)) 0) = false /\
+    srun sinit ops = [RUnit; RUnit; RUnit; RGet None] /\
+    ok_hist_C05 ops (snd (grun roriginal rinit ops)) = false.
+Proof. exact closed_stream_returned_refuted. Qed.
+Print Assumptions C05_closed_stream_returned_refuted.
+
+Theorem C05_idle_close_ignores_flv_refuted :
+  exists ops,
+    hist_wf sinit ops = true /\
+    snd (grun roriginal rinit ops) = [RUnit; RUnit; RUnit; RIdle true] /\
+    st_live (sget (fst (grun roriginal rinit ops)) 0) = false /\
+    srun sinit ops = [RUnit; RUnit; RUnit; RIdle false] /\
+    ok_hist_C05 ops (snd (grun roriginal rinit ops)) = false.
+Proof. exact idle_close_ignores_flv_refuted. Qed.
+Print Assumptions C05_idle_close_ignores_flv_refuted.
+
+(* 5. two publishers racing to register streams 1 and 2 on path p (stream 0 registered there iff
+   reg0), each Regist = atomic Swap, then retire of the replaced stream: for every schedule after
+   which both have finished, exactly one of the two streams is registered and live, the other and
+   stream 0 are closed, and the registry has that single entry *)
+Theorem C05_regist_race_one_live : forall (p : bytes) (h0 h1 h2 reg0 : bool) (sched : list bool),
+  let c := race_run (race_init p h0 h1 h2 reg0) sched in
+  c_a c = PDone -> c_b c = PDone ->
+  exists w l, ((w = 1 /\ l = 2) \/ (w = 2 /\ l = 1))%nat /\
+    g_map (c_g c) = [(p, w)] /\
+    st_live (sget (c_g c) w) = true /\
+    st_live (sget (c_g c) l) = false /\
+    st_live (sget (c_g c) 0) = false.
+Proof. exact regist_race_one_live. Qed.
+Print Assumptions C05_regist_race_one_live.
+
+(* the two steps of a racing Regist, run without interleaving, are the sequential GRegist *)
+Theorem C05_race_steps_are_regist : forall g i,
+  (i <? length (g_streams g))%nat = true ->
+  mlookup (g_map g) (st_path (sget g i)) <> Some i ->
+  (forall j, mlookup (g_map g) (st_path (sget g i)) = Some j -> consumers (sget g j) <= 0) ->
+  reg_retire (fst (reg_swap g i)) i (snd (reg_swap g i)) = fst (gstep rfixed g (GRegist i)).
+Proof. exact swap_retire_is_regist. Qed.
+Print Assumptions C05_race_steps_are_regist.
+
+(* the code before the repair (Load … Store, D6): a schedule leaves stream 1 live, overwritten and
+   registered nowhere next to the live stream 2 *)
+Theorem C05_regist_race_leak_refuted :
+  exists sched,
+    let c := orace_run (orace_init [47;97] false false false true) sched in
+    o_a c = ODone /\ o_b c = ODone /\
+    g_map (o_g c) = [([47;97], 2%nat)] /\
+    st_live (sget (o_g c) 1) = true /\ st_live (sget (o_g c) 2) = true /\
+    st_live (sget (o_g c) 0) = false.
+Proof. exact regist_race_leak_refuted. Qed.
+Print Assumptions C05_regist_race_leak_refuted.
+
+(* 6. non-vacuity: a well-formed history with three spellings of one path ("/a", " /A", "A",
+   "//x/../A"), a replacement of a stream that still has a consumer, the unregistration of the
+   retired stream, lookups, counts, listings and an idle close; and a race schedule on which both
+   publishers finish *)
+Example C05_nonvacuous :
+  hist_wf sinit example_hist = true /\
+  snd (grun rfixed rinit example_hist) = srun sinit example_hist /\
+  srun sinit example_hist =
+    [ RUnit; RUnit; RUnit; RUnit; RGet (Some 0%nat); RUnit; RGet (Some 1%nat);
+      RCount 1 0; RList [[47;97]]; RUnit; RGet (Some 1%nat); RCount 1 0;
+      RIdle true; RGet None; RCount 0 0; RList [] ].
+Proof. exact example_hist_ok. Qed.
+
+Example C05_race_nonvacuous : forall (p : bytes) (h0 h1 h2 reg0 : bool),
+  let c := race_run (race_init p h0 h1 h2 reg0) [true; true; false; false] in
+  c_a c = PDone /\ c_b c = PDone.
+Proof. exact regist_race_finishes. Qed.
